@@ -4,21 +4,22 @@ to pass the 53 tests) apply it to /repo, run EVERY quick check, revert.  A check
 an alarm on code where the properties hold.  usage: tools/harmless.py [ids...]   (/repo must be clean)"""
 import json, os, subprocess, sys
 V = os.path.dirname(os.path.dirname(os.path.abspath(__file__)))
+REPO = os.environ.get("EMD_REPO", "/repo")      # a scratch clone may be used (with a copy of /verif) to run regressions in parallel
 def sh(cmd, **kw):
     return subprocess.run(cmd, shell=True, capture_output=True, text=True, **kw)
-if sh("git -C /repo status --porcelain").stdout.strip():
-    print("/repo is not clean"); sys.exit(2)
+if sh(f"git -C {REPO} status --porcelain").stdout.strip():
+    print(REPO, "is not clean"); sys.exit(2)
 ids = sys.argv[1:] or sorted(os.listdir(os.path.join(V, "harmless")))
 alarms = []
 for hid in ids:
     d = os.path.join(V, "harmless", hid)
-    if sh(f"git -C /repo apply {d}/patch.diff").returncode != 0:
+    if sh(f"git -C {REPO} apply {d}/patch.diff").returncode != 0:
         print(hid, "patch does not apply"); alarms.append((hid, "apply")); continue
     try:
-        t = sh("/venv/bin/python -m pytest -q -p no:cacheprovider test 2>&1 | tail -1", cwd="/repo").stdout.strip()
+        t = sh("/venv/bin/python -m pytest -q -p no:cacheprovider test 2>&1 | tail -1", cwd=REPO).stdout.strip()
         r = sh("sh tools/runall.sh quick 6", cwd=V)
     finally:
-        sh("git -C /repo checkout -- .")
+        sh(f"git -C {REPO} checkout -- .")
         sh(f"rm -rf {V}/replays")
     bad = [l for l in r.stdout.splitlines() if " rc=" in l and " rc=0 0 " not in l]
     print(hid, "| suite:", t, "| alarms:", [b[:140] for b in bad])
